@@ -6,8 +6,9 @@
    The statement that EVERY reachable state satisfies inv_check is props/C02.v
    c02_conservation_full (not proved at world level; evaluated on every state of every history of
    the tie, and proved connection-locally in proofs/ConnProofs.v). *)
-From V Require Import model.Base model.Conn model.Port proofs.ConnProofs.
+From V Require Import model.Base model.Conn model.Port proofs.ListLemmas proofs.ConnProofs.
 From Coq Require Import Lia.
+Local Open Scope nat_scope.
 
 (* ---------------------------------------------------------------------------------------- *)
 (* histories                                                                                 *)
@@ -241,22 +242,25 @@ Proof.
 Qed.
 
 Lemma conn_inv_b_used_le w p s c :
-  conn_inv_b w p s c = true -> length (c_used c) <= cf_B (w_cfg w) + cf_M (w_cfg w).
+  conn_inv_b w p s c = true -> c_comp c = [] -> length (c_used c) <= cf_B (w_cfg w) + cf_M (w_cfg w).
 Proof.
   unfold conn_inv_b. cbn zeta. rewrite !Bool.andb_true_iff.
-  intros [[[[[[[[[H1 H2] H3] H4] H5] H6] H7] H8] H9] H10].
-  apply Nat.eqb_eq in H5, H10. apply Nat.leb_le in H8, H9. lia.
+  intros [[[[[[[[[[H1 H2] H3] H4] H5] H6] H7] H7b] H8] H9] H10] Hc.
+  apply Nat.eqb_eq in H5, H10. apply Nat.leb_le in H6, H7b, H9. rewrite Hc in H5. cbn [length] in H5. lia.
 Qed.
+
+(* right after retrieve_returned_chunks the completion queues of the publisher's connections are empty *)
+Definition comps_empty (w : world) (p : nat) : Prop := forall s c, In (s, c) (tab_conns w p) -> c_comp c = [].
 
 (* ---------------------------------------------------------------------------------------- *)
 (* C08: inside the limits the allocation never fails for lack of memory                      *)
 (* ---------------------------------------------------------------------------------------- *)
 Lemma holders_sum_bound w p :
-  pub_inv w p ->
+  pub_inv w p -> comps_empty w p ->
   list_sum (map (holders w p) (seq 0 (p_n (getp w p))))
   <= p_loans (getp w p) + cf_H (w_cfg w) + cf_S (w_cfg w) * (cf_B (w_cfg w) + cf_M (w_cfg w)).
 Proof.
-  intros Hinv. set (n := p_n (getp w p)).
+  intros Hinv Hce. set (n := p_n (getp w p)).
   unfold holders. rewrite !list_sum_map_add.
   assert (Hl : list_sum (map (fun o => count_off o (loans_of w p)) (seq 0 n)) <= length (loans_of w p))
     by (apply sum_cnt_seq_le, seq_NoDup).
@@ -267,7 +271,7 @@ Proof.
   { rewrite (list_sum_swap (fun o sc => count_off o (c_used (snd sc)))).
     rewrite <- list_sum_const. apply list_sum_map_le. intros [s c] Hin. cbn [snd].
     etransitivity; [apply sum_cnt_seq_le, seq_NoDup|].
-    eapply conn_inv_b_used_le. eapply pi_conns; eauto. }
+    eapply conn_inv_b_used_le; [eapply pi_conns; eauto|eapply Hce; eauto]. }
   pose proof (tab_conns_length w p) as Ht. rewrite (pi_tab _ _ Hinv) in Ht.
   pose proof (pi_loans _ _ Hinv) as Hlo. pose proof (pi_hist _ _ Hinv) as Hhi.
   assert (Hhl : length (hist_of w p) = length (p_hist (getp w p))) by (unfold hist_of; apply map_length).
@@ -278,17 +282,17 @@ Qed.
 
 (* the number of chunks in use never reaches the size of the data segment while a loan is still allowed *)
 Theorem never_oom_at_allocation w p :
-  pub_inv_b w p = true -> p_loans (getp w p) < p_L (getp w p) ->
+  pub_inv_b w p = true -> comps_empty w p -> p_loans (getp w p) < p_L (getp w p) ->
   p_free (getp w p) <> [] /\ forall w', pub_allocate_core w p <> Val (w', AErr EOutOfMemory).
 Proof.
-  intros Hb Hloans. pose proof (pub_inv_b_sound _ _ Hb) as Hinv.
+  intros Hb Hce Hloans. pose proof (pub_inv_b_sound _ _ Hb) as Hinv.
   assert (Hfree : p_free (getp w p) <> []).
   { intros Efree.
     assert (Hz : forall o, o < p_n (getp w p) -> holders w p o = 0 -> In o (p_free (getp w p))).
     { intros o Ho Hz. now apply (pi_free _ _ Hinv). }
     pose proof (free_count_bound (p_free (getp w p)) (holders w p) (p_n (getp w p)) (pi_free_nodup _ _ Hinv) Hz) as Hbound.
     rewrite Efree in Hbound. cbn [length] in Hbound.
-    pose proof (holders_sum_bound _ _ Hinv) as Hs.
+    pose proof (holders_sum_bound _ _ Hinv Hce) as Hs.
     rewrite (pi_n _ _ Hinv) in Hbound, Hs. unfold required_samples in *.
     set (A := cf_S (w_cfg w) * (cf_B (w_cfg w) + cf_M (w_cfg w))) in *.
     set (Sig := list_sum (map (holders w p) (seq 0 (A + cf_H (w_cfg w) + p_L (getp w p))))) in *.
@@ -351,7 +355,7 @@ Proof.
   { unfold tab_conns. apply in_flat_map. exists (Some (x_sub x)). split; [exact He|]. rewrite Hc. now left. }
   pose proof (pi_conns _ _ Hinv _ _ Htc) as Hci.
   unfold conn_inv_b in Hci. cbn zeta in Hci. rewrite !Bool.andb_true_iff in Hci.
-  destruct Hci as [[[[[[[[[_ _] _] Hms] _] _] _] _] _] _].
+  destruct Hci as [[[[[[[[[[_ _] _] Hms] _] _] _] _] _] _] _].
   pose proof (same_multiset_cnt _ _ Hms (x_off x)) as Hcnt.
   assert (Hbor : In (x_off x) (borrowed w p (x_sub x))).
   { unfold borrowed. apply in_map. apply filter_In. split; [exact Hx|]. rewrite Horig, !Nat.eqb_refl. reflexivity. }
@@ -469,3 +473,131 @@ Lemma sat_before_witness :
   pub_inv_b sat_before 0 = true /\ p_loans (getp sat_before 0) = 1 /\ p_L (getp sat_before 0) = 2
   /\ length (p_free (getp sat_before 0)) = 1.
 Proof. vm_compute. repeat split. Qed.
+
+(* ---------------------------------------------------------------------------------------- *)
+(* retrieve_returned_chunks empties the completion queues of the publisher's connections      *)
+(* ---------------------------------------------------------------------------------------- *)
+Lemma reclaim_all_comp fuel : forall x c, length (c_comp c) <= fuel -> c_comp (snd (reclaim_all fuel x c)) = [].
+Proof.
+  induction fuel as [|f IH]; intros x c Hl.
+  - cbn. destruct (c_comp c); [reflexivity|cbn in Hl; lia].
+  - cbn [reclaim_all]. unfold c_reclaim. destruct (c_comp c) as [|o rest] eqn:Ec.
+    + cbn. exact Ec.
+    + destruct (mem_off o (c_used c)); apply IH; cbn; cbn in Hl; lia.
+Qed.
+
+Lemma pub_release_tab x o : p_tab (pub_release x o) = p_tab x.
+Proof. reflexivity. Qed.
+
+Lemma reclaim_all_tab fuel : forall x c, p_tab (fst (reclaim_all fuel x c)) = p_tab x.
+Proof.
+  induction fuel as [|f IH]; intros x c; [reflexivity|].
+  cbn [reclaim_all]. destruct (c_reclaim c) as [c1 [|o|]]; [reflexivity| |apply IH].
+  rewrite IH. apply pub_release_tab.
+Qed.
+
+Lemma getp_setc w p s c q : getp (setc w p s c) q = getp w q.
+Proof. unfold setc. destruct (c_snd c || c_rcv c); reflexivity. Qed.
+
+Lemma getc_setp w p x a b : getc (setp w p x) a b = getc w a b.
+Proof. reflexivity. Qed.
+
+Lemma p_tab_getp_setp w p x : p_tab x = p_tab (getp w p) -> p_tab (getp (setp w p x) p) = p_tab (getp w p).
+Proof.
+  intros H. unfold getp, setp. cbn [w_pubs w_set_pubs].
+  destruct (Nat.lt_ge_cases p (length (w_pubs w))) as [Hlt|Hge].
+  - rewrite nth_upd_same by exact Hlt. exact H.
+  - assert (Hu : forall (l : list pubst) i y, length l <= i -> upd l i y = l).
+    { induction l as [|h t IHl]; intros i y Hi; [reflexivity|]. destruct i; cbn in *; [lia|]. f_equal. apply IHl. lia. }
+    rewrite Hu by exact Hge. reflexivity.
+Qed.
+
+Lemma find_conn_del_other l p s s' : s <> s' -> find_conn (del_conn l p s) p s' = find_conn l p s'.
+Proof.
+  intros Hne. induction l as [|k t IH]; [reflexivity|].
+  cbn [del_conn filter]. fold (del_conn t p s).
+  destruct (ckey_eqb p s k) eqn:E; cbn [negb].
+  - cbn [find_conn]. destruct (ckey_eqb p s' k) eqn:E2; [|exact IH].
+    unfold ckey_eqb in *. apply andb_prop in E as [E1 Ea]. apply andb_prop in E2 as [_ Eb].
+    apply Nat.eqb_eq in Ea, Eb. congruence.
+  - cbn [find_conn]. destruct (ckey_eqb p s' k); [reflexivity|exact IH].
+Qed.
+
+Lemma find_conn_del_same l p s : find_conn (del_conn l p s) p s = None.
+Proof.
+  induction l as [|k t IH]; [reflexivity|].
+  cbn [del_conn filter]. fold (del_conn t p s).
+  destruct (ckey_eqb p s k) eqn:E; cbn [negb]; [exact IH|]. cbn [find_conn]. rewrite E. exact IH.
+Qed.
+
+Lemma getc_setc_other w p s c s' : s <> s' -> getc (setc w p s c) p s' = getc w p s'.
+Proof.
+  intros Hne. unfold getc, setc. destruct (c_snd c || c_rcv c); cbn [w_conns w_set_conns].
+  - unfold put_conn. cbn [find_conn]. unfold ckey_eqb at 1. cbn [fst snd]. rewrite Nat.eqb_refl. cbn [andb].
+    destruct (Nat.eqb s s') eqn:E; [apply Nat.eqb_eq in E; contradiction|]. now apply find_conn_del_other.
+  - now apply find_conn_del_other.
+Qed.
+
+Lemma getc_setc_same w p s c c' : getc (setc w p s c) p s = Some c' -> c' = c.
+Proof.
+  unfold getc, setc. destruct (c_snd c || c_rcv c); cbn [w_conns w_set_conns].
+  - unfold put_conn. cbn [find_conn]. unfold ckey_eqb at 1. cbn [fst snd]. rewrite !Nat.eqb_refl. cbn. congruence.
+  - rewrite find_conn_del_same. discriminate.
+Qed.
+
+Lemma opt_nat_dec : forall a b : option nat, {a = b} + {a <> b}.
+Proof. decide equality; apply Nat.eq_dec. Qed.
+
+Lemma retrieve_from_spec p : forall tab w,
+  (forall s c, In (Some s) tab -> getc (retrieve_from w p tab) p s = Some c -> c_comp c = [])
+  /\ (forall s, ~ In (Some s) tab -> getc (retrieve_from w p tab) p s = getc w p s)
+  /\ p_tab (getp (retrieve_from w p tab) p) = p_tab (getp w p).
+Proof.
+  induction tab as [|e t IH]; intros w.
+  - cbn. repeat split; auto. intros s c [].
+  - destruct e as [s0|].
+    2:{ cbn [retrieve_from]. destruct (IH w) as (H1 & H2 & H3). repeat split; auto.
+        - intros s c [Hf|Hin]; [discriminate|]. now apply H1.
+        - intros s Hn. apply H2. intros Hf. apply Hn. now right. }
+    cbn [retrieve_from]. destruct (getc w p s0) as [c0|] eqn:Eg.
+    2:{ destruct (IH w) as (H1 & H2 & H3). repeat split; auto.
+        - intros s c [Hf|Hin] Hg; [|now apply (H1 s)]. inversion Hf; subst s.
+          destruct (in_dec opt_nat_dec (Some s0) t) as [Hi|Hni]; [now apply (H1 s0)|].
+          rewrite (H2 _ Hni), Eg in Hg. discriminate.
+        - intros s Hn. apply H2. intros Hf. apply Hn. now right. }
+    destruct (reclaim_all (length (c_comp c0)) (getp w p) c0) as [x1 c1] eqn:Er.
+    set (w' := setc (setp w p x1) p s0 c1).
+    destruct (IH w') as (H1 & H2 & H3).
+    assert (Hc1 : c_comp c1 = []).
+    { pose proof (reclaim_all_comp (length (c_comp c0)) (getp w p) c0 (le_n _)) as H. rewrite Er in H. exact H. }
+    assert (Hx1 : p_tab x1 = p_tab (getp w p)).
+    { pose proof (reclaim_all_tab (length (c_comp c0)) (getp w p) c0) as H. rewrite Er in H. exact H. }
+    repeat split.
+    + intros s c [Hf|Hin] Hg; [|now apply (H1 s)]. inversion Hf; subst s.
+      destruct (in_dec opt_nat_dec (Some s0) t) as [Hi|Hni]; [now apply (H1 s0)|].
+      rewrite (H2 _ Hni) in Hg. unfold w' in Hg. apply getc_setc_same in Hg. subst c. exact Hc1.
+    + intros s Hn. assert (Hne : s0 <> s) by (intros ->; apply Hn; now left).
+      rewrite H2 by (intros Hf; apply Hn; now right).
+      unfold w'. rewrite getc_setc_other by exact Hne. apply getc_setp.
+    + rewrite H3. unfold w'. rewrite getp_setc. now apply p_tab_getp_setp.
+Qed.
+
+Theorem retrieve_empties_completion_queues w p : comps_empty (pub_retrieve w p) p.
+Proof.
+  unfold comps_empty, pub_retrieve. intros s c Hin.
+  destruct (retrieve_from_spec p (p_tab (getp w p)) w) as (H1 & _ & H3).
+  unfold tab_conns in Hin. rewrite H3 in Hin.
+  apply in_flat_map in Hin as [e [He Hc]]. destruct e as [s'|]; [|destruct Hc].
+  destruct (getc (retrieve_from w p (p_tab (getp w p))) p s') as [c'|] eqn:Eg; [|destruct Hc].
+  destruct Hc as [Heq|[]]. inversion Heq; subst. eapply H1; eauto.
+Qed.
+
+Definition comps_empty_b (w : world) (p : nat) : bool :=
+  forallb (fun sc : nat * conn => match c_comp (snd sc) with [] => true | _ => false end) (tab_conns w p).
+Lemma comps_empty_b_sound w p : comps_empty_b w p = true -> comps_empty w p.
+Proof.
+  unfold comps_empty_b, comps_empty. intros H s c Hin. rewrite forallb_forall in H. specialize (H _ Hin).
+  cbn [snd] in H. destruct (c_comp c); [reflexivity|discriminate].
+Qed.
+Lemma sat_before_comps : comps_empty sat_before 0.
+Proof. apply comps_empty_b_sound. vm_compute. reflexivity. Qed.
